@@ -4,6 +4,8 @@ import (
 	"fmt"
 	"go/types"
 
+	"govc/internal/spec"
+
 	"golang.org/x/tools/go/ssa"
 )
 
@@ -14,13 +16,103 @@ type rangeState struct {
 	str     bool
 }
 
-func isModelled(fn *ssa.Function) bool { return false }
+func isModelled(fn *ssa.Function) bool {
+	return fn.Package() != nil && fn.Package().Pkg.Path() == "sort" && fn.Name() == "Slice"
+}
 
-// modelCall: built-in semantic models of library functions (none beyond the
-// language builtins; library functions get trusted contracts in
-// /verif/contracts/external so that they are listed mechanically).
+// modelCall: built-in semantic models of library functions that cannot be
+// given a first-order contract (sort.Slice is generic over the element type
+// and takes a comparison closure). Everything else gets a trusted contract in
+// /verif/contracts/external so that it is listed mechanically.
 func (g *Gen) modelCall(v ssa.Value, fn *ssa.Function, args []ssa.Value, st *State) (*State, bool) {
+	if isModelled(fn) {
+		return g.sortSlice(args, st), true
+	}
 	return nil, false
+}
+
+// sortSlice models sort.Slice(x, less) [assumed stdlib contract]: the
+// elements of x are permuted in place (a bijection src/dst between old and new
+// positions), the result is ordered w.r.t. less, nothing else changes. The
+// closure must have a contract of the form `ensures def: r == E(i, j)`.
+func (g *Gen) sortSlice(args []ssa.Value, st *State) *State {
+	mi, ok := args[0].(*ssa.MakeInterface)
+	if !ok {
+		g.fail("sort.Slice: argument is not a direct slice value")
+	}
+	sl, ok := types.Unalias(mi.X.Type()).Underlying().(*types.Slice)
+	if !ok {
+		g.fail("sort.Slice on non-slice")
+	}
+	cl := g.clos[args[1]]
+	if cl == nil {
+		g.fail("sort.Slice: comparison is not a closure literal")
+	}
+	lessFn := cl.Fn.(*ssa.Function)
+	con := g.prog.ContractFor(lessFn)
+	if con == nil || len(con.Params) != 2 {
+		g.fail("sort.Slice: closure %s needs a contract `ensures def: r == E`", displayName(lessFn))
+	}
+	var defE spec.Expr
+	for _, e := range con.Ensures {
+		if b, ok := e.Expr.(*spec.Binary); ok && e.Label == "def" && b.Op == "==" {
+			if id, ok := b.L.(*spec.Ident); ok && len(con.Results) == 1 && id.Name == con.Results[0] {
+				defE = b.R
+			}
+		}
+	}
+	if defE == nil {
+		g.fail("sort.Slice: contract of %s lacks `ensures def: %s == E`", displayName(lessFn), "r")
+	}
+	g.assumed["sort::Slice (built-in model: permutation + ordered w.r.t. less)"] = true
+	s := g.val(mi.X)
+	k := g.u.ElemComp(sl.Elem())
+	es := g.u.SortOf(sl.Elem())
+	mem := g.read(st, k)
+	oldrow := fmt.Sprintf("(select %s (s.base %s))", mem, s)
+	row := g.fresh("sort.row", "(Array Int "+es+")")
+	g.tmpN++
+	src, dst := fmt.Sprintf("sort.src!%d", g.tmpN), fmt.Sprintf("sort.dst!%d", g.tmpN)
+	g.decls = append(g.decls, fmt.Sprintf("(declare-fun %s (Int) Int)", src), fmt.Sprintf("(declare-fun %s (Int) Int)", dst))
+	lo := fmt.Sprintf("(s.off %s)", s)
+	hi := fmt.Sprintf("(+ (s.off %s) (s.len %s))", s, s)
+	r := g.reach[g.curBlock]
+	// frame (absolute positions outside the slice window are untouched)
+	g.assert(fmt.Sprintf("(=> %s (forall ((k!s Int)) (! (=> (or (< k!s %s) (>= k!s %s)) (= (select %s k!s) (select %s k!s))) :pattern ((select %s k!s)))))",
+		r, lo, hi, row, oldrow, row))
+	// permutation: src/dst are mutually inverse bijections on relative indices
+	ln := fmt.Sprintf("(s.len %s)", s)
+	g.assert(fmt.Sprintf("(=> %s (forall ((i!s Int)) (! (=> (and (<= 0 i!s) (< i!s %s)) (and (<= 0 (%s i!s)) (< (%s i!s) %s) (= (select %s (loc %s i!s)) (select %s (loc %s (%s i!s)))) (= (%s (%s i!s)) i!s))) :pattern ((select %s (loc %s i!s))))))",
+		r, ln, src, src, ln, row, lo, oldrow, lo, src, dst, src, row, lo))
+	g.assert(fmt.Sprintf("(=> %s (forall ((i!s Int)) (! (=> (and (<= 0 i!s) (< i!s %s)) (and (<= 0 (%s i!s)) (< (%s i!s) %s) (= (select %s (loc %s i!s)) (select %s (loc %s (%s i!s)))) (= (%s (%s i!s)) i!s))) :pattern ((select %s (loc %s i!s))))))",
+		r, ln, dst, dst, ln, oldrow, lo, row, lo, dst, src, dst, oldrow, lo))
+	nm := g.fresh("sort.mem", g.u.compSort[k])
+	g.assert(fmt.Sprintf("(= %s (ite (= (s.base %s) 0) %s (store %s (s.base %s) %s)))", nm, s, mem, mem, s, row))
+	post := g.update(st, k, nm)
+	// ordered: forall i < j: !less(j, i), evaluated in the post state
+	env := &Env{g: g, vars: map[string]TV{}, cur: post, old: post, callee: true, pkg: con.Pkg, src: con.Src}
+	env.vars[con.Params[0]] = TV{"j!s", "Int", types.Typ[types.Int]}
+	env.vars[con.Params[1]] = TV{"i!s", "Int", types.Typ[types.Int]}
+	for i, fv := range lessFn.FreeVars {
+		et := deref(fv.Type())
+		if pl := g.places[cl.Bindings[i]]; pl != nil {
+			env.vars[fv.Name()] = TV{g.load(post, pl), g.u.SortOf(et), et}
+			continue
+		}
+		pl := g.placeOfRef(g.val(cl.Bindings[i]), et)
+		if pl.Struct || isAggregate(et) {
+			env.vars[fv.Name()] = TV{g.val(cl.Bindings[i]), atRefSort, et}
+		} else {
+			env.vars[fv.Name()] = TV{g.load(post, pl), g.u.SortOf(et), et}
+		}
+	}
+	lessJI := env.materialize(env.eval(defE))
+	if lessJI.Sort != "Bool" {
+		g.fail("sort.Slice: def of %s is not boolean", displayName(lessFn))
+	}
+	g.assert(fmt.Sprintf("(=> %s (forall ((i!s Int) (j!s Int)) (=> (and (<= 0 i!s) (< i!s j!s) (< j!s (s.len %s))) (not %s))))",
+		r, s, lessJI.T))
+	return post
 }
 
 func (g *Gen) builtin(v ssa.Value, b *ssa.Builtin, args []ssa.Value, st *State) *State {
